@@ -84,8 +84,8 @@ Definition session_poll (shutdown_first notified feed_lost coin : bool) : wind :
 Definition process_may_exit (waits : bool) (s : sstate) (listener_returned : bool) : bool :=
   if waits then completion_done s else listener_returned.
 
-(* The wind-down of a notified HTTP/1.1 session (http1_codec.rs graceful_shutdown called through shutdown::close_within_bound by the
-   session's owner): what is left of the download has to be written
+(* The wind-down of a notified HTTP/1.1 session (http1_codec.rs graceful_shutdown called through shutdown::close_within_bound, with the
+   session's protocol, by the session's owner): what is left of the download has to be written
    to the client, flushed, and the transport shut down, all of which needs the client to take bytes. [taken_at] = when the client
    has taken all of it, in ms after the call (None = never: a client that has stopped reading and stays connected).
    [bounded] = HTTP1_ORDERLY_CLOSE_BOUNDED: the whole orderly close of a NOTIFIED session runs under one bound [B]; on expiry it fails and the
@@ -97,3 +97,12 @@ Definition h1_close (bounded : bool) (B : N) (taken_at : option N) : option (N *
   | Some t => if bounded && negb (t <? B) then Some (B, false) else Some (t, true)
   | None => if bounded then Some (B, false) else None
   end.
+
+(* The wind-down of a notified HTTP/2 session (http2_codec.rs graceful_shutdown): GOAWAY, so that no new stream is taken, and then the
+   connection is driven until the streams in flight have run to their end. [streams_end_at] = when the last of them ends by itself,
+   in ms after the call (its client reads all the time; the peers of the tunnel decide how long it lasts).
+   [limited] = the bound of the orderly close is applied to this session too (negb SESSION_CLOSE_BOUND_IS_FOR_HTTP1_ONLY). As found
+   after the bound had been introduced for every protocol: a tunnel still live [B] ms after the submission was cut in the middle.
+   (t, whole) = the session finishes t ms after it was notified; whole = its streams ran to their end. *)
+Definition h2_close (limited : bool) (B : N) (streams_end_at : N) : N * bool :=
+  if limited && negb (streams_end_at <? B) then (B, false) else (streams_end_at, true).
